@@ -6,6 +6,7 @@ package main
 import (
 	"fmt"
 	"os"
+	"strconv"
 	"go/ast"
 	"go/token"
 	"sort"
@@ -60,6 +61,7 @@ type ProofOpts struct {
 	SlowMs    int
 	Thorough  bool
 	Verbose   bool
+	Sim       bool
 	Hook      func(fp *FuncProof) // driver-specific setup (adds atoms, spec hooks)
 	ExtraExit func(fp *FuncProof, pe *PathEnd) []*Oblig
 }
@@ -88,6 +90,7 @@ type FuncProof struct {
 	weak     map[[2]int]bool
 	problems []string
 	reach    map[*Cut]map[*Cut]bool
+	sim      *Sim
 	mu       sync.Mutex
 }
 
@@ -109,6 +112,12 @@ type ProofStats struct {
 
 func (eng *Engine) NewFuncProof(fn *ssa.Function, fc *FuncContract, opts ProofOpts) *FuncProof {
 	ex := eng.newExec(fn, fc, opts.Mode)
+	if opts.Sim && fc != nil && fc.Sim != "" {
+		if cfg, err := parseSimCfg(fc); err == nil && cfg != nil {
+			ex.simVariant = cfg.Variant
+			ex.simLimit = cfg.Limit
+		}
+	}
 	fp := &FuncProof{eng: eng, ex: ex, fn: fn, fc: fc, opts: opts,
 		given: map[*Cut][]*Atom{}, cands: map[*Cut][]*Atom{}, alive: map[*Cut]map[*Atom]bool{}, meas: map[*Cut]*Atom{},
 		starts: map[*Cut]*State{}, startEval: map[*Cut]map[*Atom]evalRes{}, endEval: map[*PathEnd]map[*Atom]evalRes{},
@@ -126,9 +135,18 @@ func (fp *FuncProof) problem(format string, a ...interface{}) {
 func (fp *FuncProof) Prepare() {
 	ex := fp.ex
 	fp.s0 = ex.entryState()
+	if fp.fc != nil && fp.fc.Sim != "" && fp.opts.Sim {
+		fp.eng.attachSim(fp)
+	}
 	fp.cuts = ex.findCuts()
 	for _, c := range fp.cuts {
 		fp.cutMap[c.Block] = c
+	}
+	if fp.sim != nil {
+		fp.sim.setupCuts()
+		for _, c := range fp.cuts {
+			fp.cands[c] = append(fp.cands[c], fp.sim.fixedAtoms(c)...)
+		}
 	}
 	// atoms from the contract
 	if fp.fc != nil {
@@ -136,6 +154,9 @@ func (fp *FuncProof) Prepare() {
 			if c.LoopOrd > 0 {
 				if lc := fp.fc.Loops[c.LoopOrd]; lc != nil {
 					for k, cl := range lc.Invariants {
+						if !ex.clauseActive(cl) {
+							continue
+						}
 						fp.given[c] = append(fp.given[c], &Atom{Name: fmt.Sprintf("inv#%d", k+1), Expr: cl.Expr, Label: cl.Label})
 					}
 					if lc.Decreases != nil {
@@ -318,6 +339,10 @@ func (fp *FuncProof) evalEnd(pe *PathEnd, a *Atom) evalRes {
 
 // startHyps: the invariant of the path's source cut as hypotheses.
 func (fp *FuncProof) startHyps(pe *PathEnd) ([]*Term, []*QFact) {
+	return fp.startHypsPhase(pe, "heavy")
+}
+
+func (fp *FuncProof) startHypsPhase(pe *PathEnd, phase string) ([]*Term, []*QFact) {
 	var hs []*Term
 	var qs []*QFact
 	if pe.From == nil {
@@ -341,6 +366,12 @@ func (fp *FuncProof) startHyps(pe *PathEnd) ([]*Term, []*QFact) {
 			add(a)
 		}
 	}
+	if fp.sim != nil && phase == "heavy" {
+		st := fp.starts[c].clone()
+		hs = append(hs, fp.sim.member(c, st))
+		_, sq, _ := fp.sim.stackRel(c, st, false)
+		qs = append(qs, sq...)
+	}
 	return hs, qs
 }
 
@@ -361,49 +392,23 @@ func (fp *FuncProof) query(name string, hyps []*Term, qs []*QFact, goals []*Term
 	fp.stats.Queries++
 	fp.mu.Unlock()
 	r := fp.eng.pool.Decide(body, vals, fp.opts.QuickMs, fp.opts.SlowMs)
+	if sl := os.Getenv("RJV_SLOW"); sl != "" {
+		if ms, _ := strconv.Atoi(sl); r.Secs*1000 > float64(ms) {
+			fmt.Printf(";;;; SLOW %s %.2fs %s %s goals=%d bytes=%d\n", name, r.Secs, r.Solver, r.Status, len(goals), len(body))
+			if os.Getenv("RJV_SLOWDUMP") != "" {
+				os.WriteFile(fmt.Sprintf("/tmp/slow_%d.smt2", time.Now().UnixNano()), []byte(body+"(check-sat)\n"), 0o644)
+			}
+		}
+	}
 	return r, q, vals
 }
 
-// Houdini: drop candidate atoms until the remaining conjunction is inductive.
+// Houdini: drop candidate atoms until the remaining conjunction is inductive. With a simulation
+// driver attached the same loop also grows the per-cut sets of spec states (least fixpoint).
 func (fp *FuncProof) Houdini() {
-	type job struct{ pe *PathEnd }
-	var all []*PathEnd
-	for _, pe := range fp.paths {
-		if pe.Kind == "cut" && len(fp.cands[pe.To]) > 0 {
-			all = append(all, pe)
-		}
-	}
-	work := all
-	for round := 0; len(work) > 0 && round < 200; round++ {
-		fp.stats.HoudiniIters++
-		changed := map[*Cut]bool{}
-		requeue := map[*PathEnd]bool{}
-		var wg sync.WaitGroup
-		var cmu sync.Mutex
-		for _, pe := range work {
-			pe := pe
-			wg.Add(1)
-			go func() {
-				defer wg.Done()
-				dropped, again := fp.houdiniPath(pe)
-				cmu.Lock()
-				if dropped {
-					changed[pe.To] = true
-				}
-				if again {
-					requeue[pe] = true
-				}
-				cmu.Unlock()
-			}()
-		}
-		wg.Wait()
-		var next []*PathEnd
-		for _, pe := range all {
-			if requeue[pe] || (pe.From != nil && changed[pe.From]) {
-				next = append(next, pe)
-			}
-		}
-		work = next
+	fp.houdiniPhase("light")
+	if fp.sim != nil {
+		fp.houdiniPhase("heavy")
 	}
 	for _, c := range fp.cuts {
 		for _, a := range fp.cands[c] {
@@ -414,7 +419,59 @@ func (fp *FuncProof) Houdini() {
 	}
 }
 
-func (fp *FuncProof) houdiniPath(pe *PathEnd) (dropped, again bool) {
+func (fp *FuncProof) houdiniPhase(phase string) {
+	var all []*PathEnd
+	for _, pe := range fp.paths {
+		if pe.Kind == "cut" && (len(fp.cands[pe.To]) > 0 || fp.sim != nil) {
+			all = append(all, pe)
+		}
+	}
+	stackOp := func(pe *PathEnd) bool {
+		for _, ev := range pe.St.events {
+			if ev.Kind == "store-elem" || ev.Kind == "load-elem" {
+				return true
+			}
+		}
+		return false
+	}
+	work := all
+	for round := 0; len(work) > 0 && round < 400; round++ {
+		fp.stats.HoudiniIters++
+		changed := map[*Cut]bool{}
+		kChanged := false
+		var wg sync.WaitGroup
+		var cmu sync.Mutex
+		for _, pe := range work {
+			pe := pe
+			wg.Add(1)
+			go func() {
+				defer wg.Done()
+				dropped, kc := fp.houdiniPath(pe, phase)
+				cmu.Lock()
+				if dropped {
+					changed[pe.To] = true
+				}
+				if kc {
+					kChanged = true
+				}
+				cmu.Unlock()
+			}()
+		}
+		wg.Wait()
+		var next []*PathEnd
+		for _, pe := range all {
+			if (pe.From != nil && changed[pe.From]) || (kChanged && stackOp(pe)) {
+				next = append(next, pe)
+			}
+		}
+		work = next
+	}
+}
+
+// houdiniPath makes the path's target invariant hold by weakening it: candidate atoms false in
+// a counter-model are dropped, spec-state tuples / return-state contexts seen in a counter-model
+// are added. Returns whether the target cut's invariant changed and whether K grew.
+func (fp *FuncProof) houdiniPath(pe *PathEnd, phase string) (changed, kChanged bool) {
 	var goals []*Atom
 	fp.mu.Lock()
 	for _, a := range fp.cands[pe.To] {
@@ -423,67 +480,149 @@ func (fp *FuncProof) houdiniPath(pe *PathEnd) (dropped, again bool) {
 		}
 	}
 	fp.mu.Unlock()
-	if len(goals) == 0 {
-		return false, false
-	}
-	hs, qs := fp.startHyps(pe)
-	hs = append(hs, pe.St.pc...)
-	qs = append(qs, pe.St.qfacts...)
-	var gts []*Term
-	var live []*Atom
-	for _, a := range goals {
-		r := fp.evalEnd(pe, a)
-		if r.t == True {
-			continue
-		}
-		hs = append(hs, r.hs...)
-		qs = append(qs, r.qs...)
-		gts = append(gts, r.t)
-		live = append(live, a)
-	}
-	if len(gts) == 0 {
+	if len(goals) == 0 && (fp.sim == nil || phase == "light") {
 		return false, false
 	}
 	drop := func(a *Atom) {
 		fp.mu.Lock()
 		if fp.alive[pe.To][a] {
 			fp.alive[pe.To][a] = false
-			dropped = true
+			changed = true
 		}
 		fp.mu.Unlock()
 	}
-	for iter := 0; iter < 100 && len(gts) > 0; iter++ {
-		res, _, vals := fp.query("houdini", hs, qs, gts, gts)
-		if res.Status == "unsat" {
-			return dropped, false
+	for iter := 0; iter < 300; iter++ {
+		hs, qs := fp.startHypsPhase(pe, phase)
+		hs = append(hs, pe.St.pc...)
+		qs = append(qs, pe.St.qfacts...)
+		var gts []*Term
+		var live []*Atom
+		for _, a := range goals {
+			fp.mu.Lock()
+			al := fp.alive[pe.To][a]
+			fp.mu.Unlock()
+			if !al {
+				continue
+			}
+			r := fp.evalEnd(pe, a)
+			if r.t == True {
+				continue
+			}
+			if heavyTerm(r.t) != (phase == "heavy") {
+				continue
+			}
+			hs = append(hs, r.hs...)
+			qs = append(qs, r.qs...)
+			gts = append(gts, r.t)
+			live = append(live, a)
 		}
-		n := 0
+		if phase == "light" && fp.ex.simVariant != "" {
+			hs, qs = lightHyps(hs, qs)
+		}
+		values := append([]*Term{}, gts...)
+		var memberT, stackT *Term
+		var keyTerms, skTerms []*Term
+		if fp.sim != nil && phase == "heavy" {
+			est := pe.St.clone()
+			memberT = fp.sim.member(pe.To, est)
+			keyTerms = fp.sim.keyTerms(pe.To, est)
+			stackT, _, skTerms = fp.sim.stackRel(pe.To, est, true)
+			gts = append(gts, memberT, stackT)
+			values = append(values, memberT, stackT)
+			values = append(values, keyTerms...)
+			values = append(values, skTerms...)
+		}
+		allTrue := true
+		for _, g := range gts {
+			if g != True {
+				allTrue = false
+			}
+		}
+		if allTrue {
+			return changed, kChanged
+		}
+		res, _, vals := fp.query("houdini", hs, qs, gts, values)
+		if res.Status == "unsat" {
+			return changed, kChanged
+		}
+		progress := false
 		if res.Status == "sat" && len(res.Values) > 0 {
-			var ngts []*Term
-			var nlive []*Atom
+			val := func(i int) string {
+				if i < len(vals) {
+					return res.Values[vals[i]]
+				}
+				return ""
+			}
 			for k, a := range live {
-				if k < len(vals) && res.Values[vals[k]] == "false" {
+				if val(k) == "false" {
 					drop(a)
-					n++
-				} else {
-					ngts = append(ngts, gts[k])
-					nlive = append(nlive, a)
+					progress = true
 				}
 			}
-			gts, live = ngts, nlive
+			if fp.sim != nil && phase == "heavy" {
+				base := len(live)
+				if memberT != True && val(base) == "false" {
+					var tuple []int64
+					ok := true
+					for j := range keyTerms {
+						v, good := parseBV(val(base + 2 + j))
+						if !good {
+							ok = false
+							break
+						}
+						if keyTerms[j].Sort.W == 64 && v.Bit(63) == 1 {
+							ok = false
+							break
+						}
+						tuple = append(tuple, v.Int64())
+					}
+					if ok {
+						tk := tupleKey(tuple)
+						fp.sim.mu.Lock()
+						if !fp.sim.S[pe.To][tk] && len(fp.sim.S[pe.To]) < 400 {
+							fp.sim.S[pe.To][tk] = true
+							changed = true
+							progress = true
+						}
+						fp.sim.mu.Unlock()
+					}
+				}
+				if stackT != True && val(base+1) == "false" && len(skTerms) == 4 {
+					o := base + 2 + len(keyTerms)
+					elem, ok1 := parseBV(val(o + 1))
+					ctx, ok2 := parseBV(val(o + 2))
+					if ok1 && ok2 && elem.IsInt64() && ctx.IsInt64() && ctx.Int64() <= 2 {
+						isConst := false
+						for _, c := range fp.ex.storedConsts() {
+							if c == elem.Int64() {
+								isConst = true
+							}
+						}
+						pair := [2]int64{elem.Int64(), ctx.Int64()}
+						fp.sim.mu.Lock()
+						if isConst && !fp.sim.K[pair] {
+							fp.sim.K[pair] = true
+							kChanged = true
+							changed = true
+							progress = true
+						}
+						fp.sim.mu.Unlock()
+					}
+				}
+			}
 		}
-		if n == 0 {
-			// fall back: decide each goal separately
+		if !progress {
+			// decide each droppable goal separately; whatever cannot be proved is dropped
 			for k, a := range live {
 				r, _, _ := fp.query("houdini1", hs, qs, []*Term{gts[k]}, nil)
 				if r.Status != "unsat" {
 					drop(a)
 				}
 			}
-			return dropped, false
+			return changed, kChanged
 		}
 	}
-	return dropped, false
+	return changed, kChanged
 }
 
 // Check: the pass that counts. Every obligation is generated with the final invariants and
@@ -546,6 +685,12 @@ func (fp *FuncProof) checkPath(pe *PathEnd) {
 		for _, a := range atoms {
 			r := fp.evalEnd(pe, a)
 			items = append(items, goalItem{name: fmt.Sprintf("%s/%s->%s/%s/%s", fnName, from, to.Label, kind, a.Name), kind: kind, t: r.t, hs: r.hs, qs: r.qs, nhyp: -1})
+		}
+		if fp.sim != nil {
+			est := pe.St.clone()
+			items = append(items, goalItem{name: fmt.Sprintf("%s/%s->%s/sim/spec-state", fnName, from, to.Label), kind: "sim", t: fp.sim.member(to, est), nhyp: -1})
+			sg, _, _ := fp.sim.stackRel(to, est, true)
+			items = append(items, goalItem{name: fmt.Sprintf("%s/%s->%s/sim/stack-relation", fnName, from, to.Label), kind: "sim", t: sg, nhyp: -1})
 		}
 		// termination
 		if pe.From != nil && fp.sameSCC(pe.From, to) {
@@ -618,32 +763,61 @@ func (fp *FuncProof) checkPath(pe *PathEnd) {
 	if len(pending) == 0 {
 		return
 	}
-	// one query for the conjunction when all goals share the full path condition
-	allFull := true
-	for _, it := range pending {
-		if it.nhyp >= 0 && it.nhyp < len(pe.St.pc) {
-			allFull = false
+	isSim := fp.sim != nil || fp.ex.simVariant != ""
+	full := func(it goalItem) bool { return it.nhyp < 0 || it.nhyp >= len(pe.St.pc) }
+	// batches: goals that share the whole path condition are first tried as one conjunction
+	// (light goals with the light hypotheses, the rest with everything)
+	tryBatch := func(sel func(goalItem) bool, light bool) {
+		var batch []goalItem
+		var rest []goalItem
+		for _, it := range pending {
+			if full(it) && sel(it) {
+				batch = append(batch, it)
+			} else {
+				rest = append(rest, it)
+			}
 		}
-	}
-	if allFull && len(pending) > 1 {
+		if len(batch) < 2 {
+			return
+		}
 		hs, qs := hypsFor(goalItem{nhyp: -1})
 		var gts []*Term
-		for _, it := range pending {
+		for _, it := range batch {
 			hs = append(hs, it.hs...)
 			qs = append(qs, it.qs...)
 			gts = append(gts, it.t)
 		}
+		if light {
+			hs, qs = lightHyps(hs, qs)
+		}
 		res, q, _ := fp.query("batch", hs, qs, gts, nil)
 		if res.Status == "unsat" && fp.confirm(res, q) {
-			for _, it := range pending {
+			for _, it := range batch {
 				fp.record(it, res, nil, nil, pe)
 			}
-			return
+			pending = rest
 		}
+	}
+	if isSim {
+		tryBatch(func(it goalItem) bool { return !heavyTerm(it.t) && it.weakTry == nil }, true)
+		tryBatch(func(it goalItem) bool { return it.weakTry == nil }, false)
+	} else {
+		tryBatch(func(it goalItem) bool { return it.weakTry == nil }, false)
 	}
 	for _, it := range pending {
 		hs, qs := hypsFor(it)
 		vals := fp.modelTerms(pe)
+		if isSim {
+			// first without the specification run: most safety goals do not need it
+			lh, lq := lightHyps(hs, qs)
+			if !heavyTerm(it.t) {
+				r0, q0, _ := fp.query(it.name+"(light)", lh, lq, []*Term{it.t}, nil)
+				if r0.Status == "unsat" && fp.confirm(r0, q0) {
+					fp.record(it, r0, nil, nil, pe)
+					continue
+				}
+			}
+		}
 		res, q, vstr := fp.query(it.name, hs, qs, []*Term{it.t}, vals)
 		if res.Status == "unsat" && !fp.confirm(res, q) {
 			res.Status = "unknown"
@@ -821,7 +995,7 @@ func (fp *FuncProof) exitGoals(pe *PathEnd) []goalItem {
 	from := fp.fromLabel(pe)
 	line := fp.line(pe.Pos)
 	for k, c := range fp.fc.Ensures {
-		if c.Mode != "" && c.Mode != fp.opts.Mode {
+		if !fp.ex.clauseActive(c) {
 			continue
 		}
 		env := fp.ex.resultEnv(pe, true)
@@ -838,6 +1012,7 @@ func (fp *FuncProof) exitGoals(pe *PathEnd) []goalItem {
 			fp.problem("%s: ensures %q: %v", fnName, c.Text, err)
 			t = False
 		}
+		hs = append(hs, fp.specLemmaInstances(pe, append(append([]*Term{}, hs...), t))...)
 		items = append(items, goalItem{name: name, kind: "ensures", t: t, hs: hs, qs: qs, nhyp: -1, line: line})
 	}
 	return items
@@ -916,4 +1091,37 @@ func (fp *FuncProof) Run() {
 	fp.Houdini()
 	fp.Check()
 	fp.stats.Secs = time.Since(t0).Seconds()
+}
+
+// specLemmaInstances: instances of the absorption lemma (Dead and Done are absorbing) for every
+// position at which the path or the goal mentions the spec run.
+func (fp *FuncProof) specLemmaInstances(pe *PathEnd, extra []*Term) []*Term {
+	ex := fp.ex
+	if ex.simVariant == "" {
+		return nil
+	}
+	var out []*Term
+	all := append(append([]*Term{}, pe.St.pc...), extra...)
+	seen := map[string]bool{}
+	for _, p := range ex.fn.Params {
+		sv, ok := ex.params[p.Name()].(*SliceV)
+		if !ok || !sv.Reg.Input {
+			continue
+		}
+		arr, ok := fp.s0.store[sv.Reg].(*ArrayV)
+		if !ok || arr.Arr.Op != "var" {
+			continue
+		}
+		n := Add(sv.Off, sv.Len)
+		for _, app := range Apps(ex.rName("q", arr.Arr), all...) {
+			k := app.Args[0]
+			key := fmt.Sprintf("%d", k.id)
+			if seen[key] || k == n {
+				continue
+			}
+			seen[key] = true
+			out = append(out, ex.absorbInstance(arr.Arr, k, n))
+		}
+	}
+	return out
 }
